@@ -108,6 +108,10 @@ func LoadModule(repo, rel string) (*Module, error) {
 	prog.Build()
 	m.Prog = prog
 	registerHelpers(m)
+	loadedModules = append(loadedModules, m)
+	if !anchorLearn {
+		m.resolveAllAnchors()
+	}
 	return m, nil
 }
 
@@ -133,61 +137,78 @@ func (m *Module) InitialOwn() []*packages.Package {
 	return out
 }
 
-// LookupType returns the named type pkg.name or nil.
+// LookupType returns the named type pkg.name or nil.  An unexported type that was renamed is found by
+// its recorded shape (anchorfp.go).
 func (m *Module) LookupType(pkg, name string) *types.Named {
 	p := m.All[pkg]
 	if p == nil {
 		return nil
 	}
-	o := p.Types.Scope().Lookup(name)
-	if o == nil {
+	if o := p.Types.Scope().Lookup(name); o != nil {
+		if tn, ok := o.(*types.TypeName); ok {
+			if n, _ := tn.Type().(*types.Named); n != nil {
+				m.learnType(pkg, n)
+				return n
+			}
+		}
 		return nil
 	}
-	tn, ok := o.(*types.TypeName)
-	if !ok {
-		return nil
-	}
-	n, _ := tn.Type().(*types.Named)
-	return n
+	return m.typeByFingerprint(pkg, name)
 }
 
 // Func resolves a package-level function (recv == "") or a method of the
-// named type recv (pointer or value receiver).
+// named type recv (pointer or value receiver).  An unexported function that was renamed is found by
+// its recorded signature and body features (anchorfp.go).
 func (m *Module) Func(pkg, recv, name string) *ssa.Function {
 	p := m.All[pkg]
 	if p == nil {
 		return nil
 	}
 	if recv == "" {
-		o := p.Types.Scope().Lookup(name)
-		f, ok := o.(*types.Func)
-		if !ok {
-			return nil
+		if o := p.Types.Scope().Lookup(name); o != nil {
+			f, ok := o.(*types.Func)
+			if !ok {
+				return nil
+			}
+			fn := m.Prog.FuncValue(f)
+			m.learnFunc(pkg, recv, name, fn)
+			return fn
 		}
-		return m.Prog.FuncValue(f)
+		var cands []*ssa.Function
+		sc := p.Types.Scope()
+		for _, nm := range sc.Names() {
+			if f, ok := sc.Lookup(nm).(*types.Func); ok {
+				cands = append(cands, m.Prog.FuncValue(f))
+			}
+		}
+		return m.funcByFingerprint(pkg, recv, name, cands)
 	}
 	n := m.LookupType(pkg, recv)
 	if n == nil {
 		return nil
 	}
+	var cands []*ssa.Function
 	for _, t := range []types.Type{n, types.NewPointer(n)} {
 		ms := types.NewMethodSet(t)
 		for i := 0; i < ms.Len(); i++ {
 			sel := ms.At(i)
-			if sel.Obj().Name() == name && sel.Obj().Pkg() == p.Types {
-				if f, ok := sel.Obj().(*types.Func); ok {
-					// only methods declared on this type (not promoted)
-					if len(sel.Index()) == 1 {
-						return m.Prog.FuncValue(f)
-					}
-				}
+			f, ok := sel.Obj().(*types.Func)
+			if !ok || sel.Obj().Pkg() != p.Types || len(sel.Index()) != 1 {
+				continue // only methods declared on this type (not promoted)
 			}
+			if sel.Obj().Name() == name {
+				fn := m.Prog.FuncValue(f)
+				m.learnFunc(pkg, recv, name, fn)
+				return fn
+			}
+			cands = append(cands, m.Prog.FuncValue(f))
 		}
 	}
-	return nil
+	return m.funcByFingerprint(pkg, recv, name, cands)
 }
 
-// Field resolves a struct field object of named struct type pkg.typ.
+// Field resolves a struct field object of named struct type pkg.typ.  An unexported field that was
+// renamed is found by its type shape and position among the same-shaped fields (anchorfp.go).
 func (m *Module) Field(pkg, typ, field string) *types.Var {
 	n := m.LookupType(pkg, typ)
 	if n == nil {
@@ -199,10 +220,11 @@ func (m *Module) Field(pkg, typ, field string) *types.Var {
 	}
 	for i := 0; i < st.NumFields(); i++ {
 		if st.Field(i).Name() == field {
+			m.learnField(pkg, typ, st, st.Field(i))
 			return st.Field(i)
 		}
 	}
-	return nil
+	return m.fieldByFingerprint(pkg, typ, st, field)
 }
 
 // WithAnon returns fn and all function literals nested in it.
